@@ -514,6 +514,13 @@ int main(int argc, char **argv)
                 std::vector<int> word(Ltraj);
                 long q = w;
                 for (int i = 0; i < Ltraj; i++) { word[i] = q % nv_traj; q /= nv_traj; }
+                if (thorough) {
+                  // thorough tier: all flag subsets x freq x segmentation x definition point on 1 word in 9 (27 words of 5
+                  // values); all 243 words on 6 flag subsets (the full product is 4.2 million module runs with file output)
+                  bool word_sel = (w % 9 == 4);
+                  bool flag_sel = (flags == 0 || flags == 127 || flags == 0x55 || flags == 0x2a || flags == 7 || flags == 0x78);
+                  if (!(word_sel || flag_sel)) continue;
+                }
                 if (!thorough) {
                   bool word_sel = (w % 27 == 13);
                   bool flag_sel = (flags == 0 || flags == 127 || flags == 0x55 || flags == 0x2a || flags == 7 || flags == 0x78);
